@@ -1,2 +1,50 @@
-(* C09 -- (statements to be added) *)
-From WB Require Import Base.Str Model.Persist.
+(* C09 -- What was flushed is what is loaded.  Statements only; proofs in Proofs/CodecFacts.v,
+   Proofs/PersistFacts.v.  The text layer (JSON value <-> file bytes, sha256) is abstracted: a file
+   holds a JSON value, a checksum file holds the value it was computed from; what is proved about
+   the text layer is in C14, the rest is exercised by the correspondence (file contents compared
+   byte for byte). *)
+From WB Require Import Base.Str Base.Json Model.Key Model.Consts Model.Store Model.Entry Model.Core
+  Model.Persist Proofs.NumFacts Proofs.CodecFacts Proofs.PersistFacts.
+
+(* the stored tree survives its file representation: every key, value, plain/CAS kind and CAS version
+   up to u64::MAX -- outside the known class F8 (node_ok) *)
+Theorem C09_node_roundtrip : forall n, node_ok n -> dec_node (enc_node n) = Some n.
+Proof. exact node_roundtrip. Qed.
+Print Assumptions C09_node_roundtrip.
+
+Theorem C09_entry_roundtrip : forall e, entry_ok e -> dec_entry (enc_entry e) = e.
+Proof. exact entry_roundtrip. Qed.
+Print Assumptions C09_entry_roundtrip.
+
+(* flush, then load (v3 layout, either toggle state, whatever the directory held before): the server
+   has the user part of the store at the flush ($SYS stripped) with the grave goods and last wills
+   registered at the flush applied, and the directory is left as the flush wrote it *)
+Theorem C09_load_flush :
+  forall s d, node_ok (strip_sys s_SYS (data s)) ->
+    load_v3 (fst (flush None s d)) =
+    Some (apply_gglw (core_of (strip_sys s_SYS (data s))) (all_grave_goods s) (all_last_wills s),
+          fst (flush None s d)).
+Proof. exact load_after_flush. Qed.
+Print Assumptions C09_load_flush.
+
+Theorem C09_registrations_roundtrip : forall gg lw, dec_gglw (enc_gglw gg lw) = Some (gg, lw).
+Proof. exact gglw_roundtrip. Qed.
+Print Assumptions C09_registrations_roundtrip.
+
+(* known finding F8: the two values the ValueEntry file format cannot represent *)
+Theorem C09_F8_refuted :
+  dec_entry (enc_entry (Plain (JObj [(s_Cas, JArr [JNull; JNum [49]])]))) = Cas JNull 1 /\
+  dec_node (enc_node (Node (Some (Plain JNull)) [])) = Some (Node None []).
+Proof. split; reflexivity. Qed.
+Print Assumptions C09_F8_refuted.
+
+Example C09_nonvacuous :
+  let s := final init [OSet 1 [97;47;98] (JStr [120]) false; OCSet 1 [99] (JNum [49]) 0 false] in
+  node_ok (strip_sys s_SYS (data s)) /\
+  (exists s', load_v3 (fst (flush None s [])) = Some (s', fst (flush None s [])) /\
+              do_cget s' [99] = RCValue (JNum [49]) 1 /\ do_get s' [97;47;98] = RValue (JStr [120])).
+Proof.
+  split.
+  - vm_compute. repeat split; try discriminate; lia.
+  - eexists. split; [vm_compute; reflexivity|]. split; vm_compute; reflexivity.
+Qed.
